@@ -138,3 +138,12 @@ func (e *Env) PkgFuncs(pkgs ...string) []*ssa.Function {
 	}
 	return out
 }
+
+func (e *Env) posOfBlock(b *ssa.BasicBlock) string {
+	for i := len(b.Instrs) - 1; i >= 0; i-- {
+		if p := e.P.SSA.Fset.Position(b.Instrs[i].Pos()); p.IsValid() {
+			return shortPos(p.Filename, p.Line)
+		}
+	}
+	return e.Pos(b.Parent())
+}
